@@ -43,6 +43,7 @@ type FuncContract struct {
 	Requires   []Clause
 	Ensures    []Clause
 	Invariants map[int][]Clause
+	BodyEnsures map[int][]Clause // checked at every back edge, over the values of the finished iteration
 	Asserts    []Clause // assert@anchor
 	Modifies   []string
 	ModAll     bool
@@ -83,7 +84,7 @@ var clauseKeywords = map[string]bool{
 	"modifies": true, "invariant": true, "nopanic": true, "trusted": true, "pure": true,
 	"specfn": true, "let": true, "assume": true, "typeinv": true, "protect": true,
 	"monotone": true, "results": true, "assert": true, "package": true, "sweep": true,
-	"axiom": true, "ghostfield": true, "lemma": true, "impls": true, "ghost": true, "frame": true, "end": true,
+	"axiom": true, "ghostfield": true, "lemma": true, "impls": true, "bodyensures": true, "ghost": true, "frame": true, "end": true,
 }
 
 var labelRe = regexp.MustCompile(`^([A-Za-z_][A-Za-z0-9_\-]*):\s+(.*)$`)
@@ -150,7 +151,7 @@ func parseContractFile(path string, pkgPath string, assumed bool, cs *Contracts)
 			cur = nil
 		case "func":
 			key := strings.Fields(text)[0]
-			cur = &FuncContract{Pkg: curPkg, Key: key, Invariants: map[int][]Clause{}, Pos: rc.pos, Assumed: assumed, Arith: "int"}
+			cur = &FuncContract{Pkg: curPkg, Key: key, Invariants: map[int][]Clause{}, BodyEnsures: map[int][]Clause{}, Pos: rc.pos, Assumed: assumed, Arith: "int"}
 			full := curPkg + "." + key
 			if _, dup := cs.Funcs[full]; dup {
 				return fmt.Errorf("%s: duplicate contract for %s", rc.pos, full)
@@ -201,7 +202,7 @@ func parseContractFile(path string, pkgPath string, assumed bool, cs *Contracts)
 						cur.Modifies = append(cur.Modifies, m)
 					}
 				}
-			case "invariant":
+			case "invariant", "bodyensures":
 				fs := strings.SplitN(text, " ", 2)
 				n, err := strconv.Atoi(strings.TrimSuffix(fs[0], ":"))
 				if err != nil || len(fs) < 2 {
@@ -212,7 +213,11 @@ func parseContractFile(path string, pkgPath string, assumed bool, cs *Contracts)
 				if m := labelRe.FindStringSubmatch(cl.Text); m != nil {
 					cl.Label, cl.Text = m[1], m[2]
 				}
-				cur.Invariants[n] = append(cur.Invariants[n], cl)
+				if rc.kw == "bodyensures" {
+					cur.BodyEnsures[n] = append(cur.BodyEnsures[n], cl)
+				} else {
+					cur.Invariants[n] = append(cur.Invariants[n], cl)
+				}
 			default:
 				cl.Text = text
 				if m := labelRe.FindStringSubmatch(cl.Text); m != nil {
